@@ -224,12 +224,21 @@ pub fn run(ctx: &Ctx) -> i32 {
     );
     if let Some(p) = &ctx.replay {
         let Some(v) = check::read_replay(p) else { rep.inconclusive.push("unreadable replay file".into()); return rep.finish() };
+        if v["unit_body"].is_string() {
+            return check::replay_unit(ctx);
+        }
         let r = eval(&check::dna_of(&v));
         rep.evaluations = 1;
         if let Err(m) = r.verdict {
             rep.violations.push(Failure { msg: m, dna: check::dna_of(&v), variant: "replay".into(), source: r.src, unit_body: None });
         }
         return rep.finish();
+    }
+    // semantic lane: explicit modes probed by trait resolution (bound(*) constrains parameters that occur only in
+    // ignored fields, custom predicates add only what is written, false adds nothing)
+    match engine::build_proc_macro() {
+        Ok(so) => crate::props::c11::lane(ctx, &mut rep, &so, ctx.scale(600, 8000), 0xC125, true, "C12-sem"),
+        Err(e) => rep.inconclusive.push(e.0),
     }
     let n = ctx.scale(10000, 200000);
     let mut trees = check::draw(ctx.seed, 0xC12, n, 520);
